@@ -8,3 +8,17 @@ pub assume_specification[ i64::checked_neg ](x: i64) -> (r: Option<i64>)
 pub fn vx_opt_arc_cloned<T>(o: Option<&Arc<T>>) -> (r: Option<Arc<T>>)
     ensures r == (match o { Some(a) => Some(*a), None => None::<Arc<T>> })
 { unimplemented!() }
+pub assume_specification<T, E, U, D: FnOnce(E) -> U, F: FnOnce(T) -> U>[ std::result::Result::<T, E>::map_or_else ](self_: std::result::Result<T, E>, default: D, f: F) -> (r: U)
+    requires match self_ { Ok(t) => f.requires((t,)), Err(e) => default.requires((e,)) }
+    ensures match self_ { Ok(t) => f.ensures((t,), r), Err(e) => default.ensures((e,), r) };
+pub assume_specification<T, E, F: FnOnce(E) -> T>[ std::result::Result::<T, E>::unwrap_or_else ](self_: std::result::Result<T, E>, f: F) -> (r: T)
+    requires self_ is Err ==> f.requires((self_->Err_0,))
+    ensures match self_ { Ok(t) => r == t, Err(e) => f.ensures((e,), r) };
+pub assume_specification<T, E, U, F: FnOnce(T) -> std::result::Result<U, E>>[ std::result::Result::<T, E>::and_then ](self_: std::result::Result<T, E>, f: F) -> (r: std::result::Result<U, E>)
+    requires self_ is Ok ==> f.requires((self_->Ok_0,))
+    ensures match self_ { Ok(t) => f.ensures((t,), r), Err(e) => r == Err::<U, E>(e) };
+/// `Result<&T, E>::cloned()` (assumes `T::clone` returns an equal value)
+#[verifier::external_body]
+pub fn vx_res_cloned<T: Clone, E>(o: std::result::Result<&T, E>) -> (r: std::result::Result<T, E>)
+    ensures r == (match o { Ok(t) => Ok::<T, E>(*t), Err(e) => Err::<T, E>(e) })
+{ unimplemented!() }
